@@ -108,14 +108,56 @@ impl<T: Clone> Slot<T> {
   }
 }
 
-pub fn err(id: u8) -> RxError {
-  RxError::from_error(id)
+/// stub for alloc::fmt::format (Kani guidance: `format!` on never-taken display paths dominated CBMC's cost): RxError builds a
+/// `get_str` closure with `format!`; the harnesses never look at error *texts*.
+pub fn stub_format(_args: std::fmt::Arguments<'_>) -> String {
+  String::new()
 }
+
+// Error payloads in harnesses are identified by OBJECT IDENTITY (the Arc inside RxError), not by downcasting: `dyn Any` type ids are
+// not available under `-Z restrict-vtable`, and identity is the stronger statement anyway (C04: "the very same payload").
+pub const ERR_CAP: usize = 4;
+pub struct ErrTab {
+  n: Cell<usize>,
+  ids: [Cell<u8>; ERR_CAP],
+  errs: [Cell<Option<RxError>>; ERR_CAP],
+}
+unsafe impl Sync for ErrTab {}
+static ERR_TAB: ErrTab = ErrTab {
+  n: Cell::new(0),
+  ids: [Cell::new(0), Cell::new(0), Cell::new(0), Cell::new(0)],
+  errs: [Cell::new(None), Cell::new(None), Cell::new(None), Cell::new(None)],
+};
+/// a fresh error object tagged `id`
+pub fn err(id: u8) -> RxError {
+  let e = RxError::from_error(id);
+  let n = ERR_TAB.n.get();
+  assert!(n < ERR_CAP, "harness error table overflow");
+  ERR_TAB.ids[n].set(id);
+  ERR_TAB.errs[n].set(Some(e.clone()));
+  ERR_TAB.n.set(n + 1);
+  e
+}
+/// the tag of the error object `e` was created with (0xff: not an object created by `err`)
 pub fn err_id(e: &RxError) -> u32 {
-  match e.downcast_ref::<u8>() {
-    Some(v) => *v as u32,
-    None => 0xff,
+  let n = ERR_TAB.n.get();
+  macro_rules! at {
+    ($i:expr) => {
+      if $i < n {
+        let x = ERR_TAB.errs[$i].take();
+        let same = match &x {
+          Some(r) => crate::rx_error::verif_k::same_error(r, e),
+          None => false,
+        };
+        ERR_TAB.errs[$i].set(x);
+        if same {
+          return ERR_TAB.ids[$i].get() as u32;
+        }
+      }
+    };
   }
+  at!(0); at!(1); at!(2); at!(3);
+  0xff
 }
 
 /// recording subscriber: logs N/E/C
